@@ -93,11 +93,12 @@ impl anstyle_parse::Perform for WinconCapture {
     fn csi_dispatch(
         &mut self,
         params: &anstyle_parse::Params,
-        _intermediates: &[u8],
+        intermediates: &[u8],
         ignore: bool,
         action: u8,
     ) {
-        if ignore {
+        if ignore || !intermediates.is_empty() {
+            // Private markers and intermediates make it a different control function
             return;
         }
         if action != b'm' {
